@@ -10,7 +10,7 @@ from fractions import Fraction
 
 import numpy as np
 
-from .absval import frac, to_float, is_fin
+from .absval import frac, to_float, is_fin, EMPTYNAME
 
 
 class Gamma:
@@ -76,6 +76,11 @@ def _fn_src(field, fid, strok=False):
     return "lambda d: %s" % core
 
 
+def _real_name(nm):
+    """abstract name -> the name given to the library (absval.EMPTYNAME is the explicit empty string)"""
+    return "" if nm == EMPTYNAME else nm
+
+
 def make_quantity(node):
     import histogrammar as hg
     from histogrammar.util import named, cached
@@ -86,9 +91,9 @@ def make_quantity(node):
         nm = node.get("nm", "")
         if node.get("form") == "str":
             s = E.as_string(node["qe"], node.get("al", False))
-            return named(nm, s) if nm and nm != s else s     # (a string expression's own name is its text)
+            return named(_real_name(nm), s) if nm and nm != s else s     # (a string expression's own name is its text)
         fn = eval(E.as_lambda_src(node["qe"], RECMODE[0], node.get("al", False)), {})
-        return named(nm, fn) if nm else fn
+        return named(_real_name(nm), fn) if nm else fn
     field = node["q"]
     if node["k"] == "Bag":
         field = {"N": field, "N2": "N2", "S": "cS"}[node["range"]]
@@ -98,7 +103,7 @@ def make_quantity(node):
     if form == "str":
         # string expression; its auto-name is the expression itself (descriptor nm must say so)
         assert not fid and field in ("x", "y", "s", "c")
-        return field
+        return named("", field) if nm == EMPTYNAME else field
     # (strings are data for Categorize and for string-valued Bags)
     fn = eval(_fn_src(field, fid, strok=node["k"] == "Categorize" or field == "cS"), {})
     if form == "tup" and field == "N2" and not fid:
@@ -114,7 +119,7 @@ def make_quantity(node):
     if form == "cached":
         fn = cached(fn)
     if nm:
-        fn = named(nm, fn)
+        fn = named(_real_name(nm), fn)
     return fn
 
 
